@@ -31,6 +31,7 @@ var (
 	aloneBudget   = budget{cpu: 40, wall: 60}   // re-run alone in a fresh worker
 	aloneWallMax  = 300.0                       // a starved re-run is extended up to here until it has had its CPU
 	earlyHangCPU  = 0.75                        // after this much CPU a slow case is sampled; a *known* hang signature ends the attempt
+	maxWalked     = 100000                      // objects File.Walk may report for a file of <= 256 KiB (failure kind "blowup")
 	minimizeEvals = 60
 	minimizeWall  = 90 * time.Second // minimisation is a convenience: time-boxed, the unminimised case is a valid replay too
 )
@@ -142,6 +143,11 @@ func failuresOf(at attempt) []Failure {
 				f.Loc = locOf(f.Frames[0])
 			}
 			out = append(out, f)
+		}
+		if at.resp.Walked > maxWalked {
+			// the listing itself is out of proportion: a file of <= 256 KiB holds at most ~16 000 object headers
+			out = append(out, Failure{Kind: "blowup", Fn: "hdf5.(*File).Walk", Class: "more than 100000 objects listed", Op: "File.Walk",
+				Msg: fmt.Sprintf("%d objects", at.resp.Walked)})
 		}
 		for _, p := range at.resp.Big {
 			if p.Op == "FilterPipelineMessage.ApplyFilters" {
@@ -681,6 +687,9 @@ func campaign(t *testing.T) {
 			if strings.HasPrefix(n, "gen/") {
 				wgt = 30
 			}
+			if strings.HasPrefix(n, "gen/fanin") {
+				wgt = 4 // eight group-only files: their point is the intact read
+			}
 		case 1:
 			nErr++
 			wgt = 1
@@ -803,5 +812,6 @@ func TestProp(t *testing.T) {
 		vt.Func[Case]{Name: subTree, Body: treePointers, One: runOne},
 		vt.Func[Case]{Name: subDup, Body: dupMessages, One: runOne},
 		vt.Func[Case]{Name: subWrap, Body: wrapDims, One: runOne},
+		vt.Func[Case]{Name: subCut, Body: msgCut, One: runOne},
 	)
 }
